@@ -224,6 +224,11 @@ def build_harness(repo, cfg, variant):
         if r.returncode != 0:
             raise BuildError('link failed: %s' % r.stdout[-4000:])
         os.replace(tmp, exe)
+    else:
+        try:
+            os.utime(exe, None)   # least-recently-used order for gc()
+        except OSError:
+            pass
     return exe
 
 
@@ -243,12 +248,18 @@ def build_main(repo, variant):
         if r.returncode != 0:
             raise BuildError('link failed: %s' % r.stdout[-4000:])
         os.replace(tmp, exe)
+    else:
+        try:
+            os.utime(exe, None)   # least-recently-used order for gc()
+        except OSError:
+            pass
     return exe
 
 
-def gc(max_files=4000):
-    """Drop the oldest cached objects/binaries when the cache grows (disk is limited)."""
+def gc(max_files=4000, max_bins=300):
+    """Drop the least recently used cached objects/binaries when the cache grows (disk is limited; a sanitizer binary is 20-40 MB)."""
     for sub in ('obj', 'bin'):
+        max_files = max_bins if sub == 'bin' else max_files
         d = os.path.join(BUILD, sub)
         if not os.path.isdir(d):
             continue
